@@ -458,14 +458,27 @@ def check_kind_predicate(repo, rep):
                        ('extension_method', {'is_method': True,
                                              'is_function': True})):
         f = sp.func(name)
-        got = {}
-        for s in model.walk_shallow(f.node):
-            if isinstance(s, ast.Assign) and isinstance(
-                    s.targets[0], ast.Attribute) and isinstance(
-                    s.value, ast.Constant):
-                got[s.targets[0].attr] = s.value.value
-        rep.ob('R12c', f.key, got == want,
-               '@specs.%s must set %s; it sets %s' % (name, want, got),
+        # abstract evaluation of the decorator on an opaque function whose
+        # definition object starts with both flags unset
+        from sa import absint
+        fd = absint.Obj('definition', is_method='unset',
+                        is_function='unset', name=None, no_kwargs=False)
+        func = absint.Obj('func')
+
+        def oracle(callee, args, kwargs, _fd=fd):
+            if callee.endswith('_get_function_definition'):
+                return (_fd,)
+            return None
+        try:
+            out = absint.Interp(repo, sp, oracle).run(f.node, {0: func})
+        except absint.Unsupported as e:
+            raise AnalysisError('R12c: specs.%s uses a construct outside '
+                                'the modelled fragment (%s)' % (name, e))
+        got = {k: fd.attrs.get(k) for k in want}
+        rep.ob('R12c', f.key, got == want and out[0] == 'return' and
+               out[1] is func,
+               '@specs.%s must set %s on the function definition and '
+               'return the function; it sets %s' % (name, want, got),
                loc=sp.loc(f.node))
 
 
